@@ -407,6 +407,8 @@ func (x *Exec) trusted(st *State, fn *ssa.Function, name string, args []*Term) (
 	c := x.c
 	ret := func(v *Term) ([]Outcome, bool) { return []Outcome{{st: st, kind: ORet, val: v}}, true }
 	switch {
+	case name == "sort.Sort" || name == "sort.Stable":
+		return x.trustedSort(st, fn, args), true
 	case name == "runtime/debug.Stack":
 		x.noteTrusted("runtime/debug.Stack: returns some byte slice, no other effect")
 		v := c.Fresh("stack", c.Slice)
@@ -483,4 +485,95 @@ func (x *Exec) eqEither(st *State, t types.Type, a, b *Term, depth int) *Term {
 	return c.Implies(facts, c.And(c.Eq(la, lb), c.Eq(ra, rb),
 		c.Implies(ra, x.eqByType(st, rt, ga, gb, depth+1)),
 		c.Implies(la, x.eqByType(st, lt, fa, fb, depth+1))))
+}
+
+// trustedSort: assumed contract of sort.Sort(data): it only calls
+// data.Len/Less/Swap; afterwards the elements are ordered by Less.  Swap is
+// executed once for arbitrary indices, so its own obligations (bounds, frame:
+// it must write only to memory the function under contract owns) are
+// generated; the memory it writes is then havocked and constrained by
+// sortedness.  That the result is a permutation is part of the trusted
+// contract of sort.Sort given a correct Swap and is not re-derived here.
+func (x *Exec) trustedSort(st *State, fn *ssa.Function, args []*Term) []Outcome {
+	c := x.c
+	x.noteTrusted("sort.Sort: calls only Len/Less/Swap of its argument; afterwards !Less(j, i) for all i < j (permutation of the input given a correct Swap)")
+	data := args[0]
+	it := fn.Signature.Params().At(0).Type()
+	ms := types.NewMethodSet(it)
+	meth := func(name string) *types.Func {
+		for i := 0; i < ms.Len(); i++ {
+			if ms.At(i).Obj().Name() == name {
+				return ms.At(i).Obj().(*types.Func)
+			}
+		}
+		return nil
+	}
+	// n := data.Len()
+	louts := x.invoke(st, data, meth("Len"), nil, it)
+	var res []Outcome
+	for _, lo := range louts {
+		if lo.kind != ORet {
+			res = append(res, lo)
+			continue
+		}
+		s1 := lo.st
+		n := lo.val
+		i := c.Fresh("sort_i", c.Int)
+		j := c.Fresh("sort_j", c.Int)
+		base := s1.clone()
+		s2 := s1
+		// one arbitrary Swap
+		sw := s2.clone()
+		x.assumeFact(sw, c.And(c.Cmp("<=", c.IntLit(0), i), c.Cmp("<", i, n), c.Cmp("<=", c.IntLit(0), j), c.Cmp("<", j, n)))
+		souts := x.invoke(sw, data, meth("Swap"), []*Term{i, j}, it)
+		acc := &discoverAcc{cells: map[int]bool{}, heaps: map[string]bool{}, arrs: map[string]bool{}, maps: map[string]bool{}, iters: map[int]bool{}, globals: map[string]bool{}}
+		bad := false
+		for _, so := range souts {
+			switch so.kind {
+			case ORet:
+				acc.diff(base, so.st)
+			case OPanic:
+				// a Swap that can panic for in-range indices: report as a reachable panic if n > 1
+				ps := so.st
+				x.assumeFact(ps, c.Cmp("<", c.IntLit(1), n))
+				res = append(res, Outcome{st: ps, kind: OPanic, val: so.val})
+			default:
+				res = append(res, so)
+				bad = true
+			}
+		}
+		if bad {
+			continue
+		}
+		// havoc what Swap writes (cells holding arrays, and the symbolic array heap)
+		for id := range acc.cells {
+			if old, ok := s2.cells[id]; ok {
+				s2.cells[id] = c.Fresh(fmt.Sprintf("sorted%d", id), old.Sort)
+			}
+		}
+		for _, k := range sortedKeys(acc.arrs) {
+			if old, ok := s2.arrs[k]; ok {
+				x.havocArrs(s2, k, old)
+			} else {
+				x.havocArrs(s2, k, x.arrsOf(s2, c.sorts[k]))
+			}
+		}
+		for _, k := range sortedKeys(acc.heaps) {
+			if old, ok := s2.heap[k]; ok {
+				s2.heap[k] = c.Fresh("sortheap", old.Sort)
+			}
+		}
+		// sortedness: forall a < b < n : !Less(b, a)
+		a := c.BoundVar("a", c.Int)
+		b := c.BoundVar("b", c.Int)
+		q := s2.clone()
+		louts2 := x.invoke(q, data, meth("Less"), []*Term{b, a}, it)
+		lv, ldef, lfacts := x.mergeOuts(s2, louts2, c.Bool)
+		if lv != nil {
+			guard := c.And(c.Cmp("<=", c.IntLit(0), a), c.Cmp("<", a, b), c.Cmp("<", b, n), lfacts)
+			x.assumeFact(s2, c.Forall([]*Term{a, b}, c.Implies(guard, c.And(ldef, c.Not(lv)))))
+		}
+		res = append(res, Outcome{st: s2, kind: ORet, val: c.Ctor(c.Unit)})
+	}
+	return res
 }
